@@ -6,6 +6,12 @@ import CfrVerif.Proofs.CfrSpec
 its effect list adds exactly the instantaneous counterfactual regrets (`regAdd`) and the
 reach-weighted strategy masses (`stratAdd`) of *both* players, each computed on that player's view
 of the game.
+
+Two of the four statements needed a visible extra hypothesis (counterexamples in the report and
+in the comments of `vrec_full_regret` / `vrec_full_strat`): the traversal zips the strategy /
+chance probabilities with the children, the textbook quantities `regAddD` / `stratAddN` run over
+all children.  `VOwnFits` / `VNatFits` say that no child is cut off; both follow from `VOK` and
+the strategy lengths (`VOK.ownFits`, `VOK.natFits`).
 -/
 set_option linter.unusedSectionVars false
 namespace Cfr
@@ -13,6 +19,152 @@ variable {α : Type} [Field α] [LinearOrder α] [IsStrictOrderedRing α]
 
 /-- the traversal context reads the profile `σ` -/
 def CtxOf (c : VCtx α) (σ : Bool → Strat α) : Prop := ∀ one i, c.strat one i = (σ one).at i
+
+/-! ## `effSum` -/
+
+theorem slot_beq (s t : Slot) : (s == t) = decide (s = t) := by cases s <;> cases t <;> rfl
+
+@[simp] theorem effSum_nil (one : Bool) (I : Nat) (slot : Slot) (a : Nat) :
+    effSum ([] : List (Eff α)) one I slot a = 0 := by simp [effSum]
+
+theorem effSum_cons (e : Eff α) (es : List (Eff α)) (one : Bool) (I : Nat) (slot : Slot) (a : Nat) :
+    effSum (e :: es) one I slot a
+      = (if e.one = one ∧ e.info = I ∧ e.slot = slot ∧ e.act = a then e.delta else 0)
+        + effSum es one I slot a := by
+  unfold effSum
+  by_cases h : e.one = one ∧ e.info = I ∧ e.slot = slot ∧ e.act = a
+  · have : (e.one == one && e.info == I && e.slot == slot && e.act == a) = true := by
+      obtain ⟨h1, h2, h3, h4⟩ := h
+      simp [slot_beq, h1, h2, h3, h4]
+    rw [List.filter_cons, if_pos this, if_pos h]
+    simp
+  · have : (e.one == one && e.info == I && e.slot == slot && e.act == a) = false := by
+      rw [Bool.eq_false_iff]
+      intro hh
+      apply h
+      simpa [slot_beq, and_assoc] using hh
+    rw [List.filter_cons, this, if_neg h]
+    simp
+
+@[simp] theorem effSum_append (es es' : List (Eff α)) (one : Bool) (I : Nat) (slot : Slot) (a : Nat) :
+    effSum (es ++ es') one I slot a = effSum es one I slot a + effSum es' one I slot a := by
+  simp [effSum]
+
+theorem effSum_stratEffs_strat (one : Bool) (i : Nat) (own : α) (me : Bool) (I a : Nat) :
+    ∀ (σ : List α) (k : Nat), effSum (stratEffs one i own σ k) me I Slot.strat a
+      = if one = me ∧ i = I ∧ k ≤ a then own * σ.getD (a - k) 0 else 0
+  | [], k => by simp [stratEffs]
+  | s :: σ, k => by
+    simp only [stratEffs, effSum_cons, effSum_stratEffs_strat one i own me I a σ (k + 1)]
+    by_cases h1 : one = me
+    · by_cases h2 : i = I
+      · rcases Nat.lt_trichotomy k a with h | h | h
+        · have e : a - k = (a - (k + 1)) + 1 := by omega
+          have : ¬ k = a := by omega
+          have h' : k + 1 ≤ a := h
+          have h'' : k ≤ a := by omega
+          simp [h1, h2, this, h', h'', e]
+        · subst h
+          simp [h1, h2]
+        · have : ¬ k = a := by omega
+          have h' : ¬ k + 1 ≤ a := by omega
+          have h'' : ¬ k ≤ a := by omega
+          simp [h1, h2, this, h', h'']
+      · simp [h2]
+    · simp [h1]
+
+theorem effSum_stratEffs_regret (one : Bool) (i : Nat) (own : α) (me : Bool) (I a : Nat) :
+    ∀ (σ : List α) (k : Nat), effSum (stratEffs one i own σ k) me I Slot.regret a = 0
+  | [], k => by simp [stratEffs]
+  | s :: σ, k => by
+    simp [stratEffs, effSum_cons, effSum_stratEffs_regret one i own me I a σ (k + 1)]
+
+theorem effSum_subEffs_strat (one : Bool) (i : Nat) (sub : α) (n : Nat) (me : Bool) (I a : Nat) :
+    effSum (subEffs one i sub n) me I Slot.strat a = 0 := by
+  unfold subEffs
+  induction n with
+  | zero => simp
+  | succ n ih => simp [List.range_succ, effSum_cons, ih]
+
+theorem effSum_subEffs_regret (one : Bool) (i : Nat) (sub : α) (n : Nat) (me : Bool) (I a : Nat) :
+    effSum (subEffs one i sub n) me I Slot.regret a
+      = if one = me ∧ i = I ∧ a < n then -sub else 0 := by
+  unfold subEffs
+  induction n with
+  | zero => simp
+  | succ n ih =>
+    simp only [List.range_succ, List.map_append, effSum_append, ih, List.map_cons, List.map_nil,
+      effSum_cons, effSum_nil]
+    by_cases h1 : one = me
+    · by_cases h2 : i = I
+      · rcases Nat.lt_trichotomy a n with h | h | h
+        · have : ¬ n = a := by omega
+          have h' : a < n + 1 := by omega
+          simp [h1, h2, h, this, h']
+        · subst h
+          simp [h1, h2]
+        · have : ¬ n = a := by omega
+          have h' : ¬ a < n + 1 := by omega
+          have h'' : ¬ a < n := by omega
+          simp [h1, h2, this, h', h'']
+      · simp [h2]
+    · simp [h1]
+
+/-! ## one atomic accumulation, a list of them -/
+
+theorem addAt_length (l : List α) (a : Nat) (d : α) : (addAt l a d).length = l.length := by
+  simp [addAt]
+
+theorem addAt_getD (l : List α) (a : Nat) (d : α) (b : Nat) (hb : b < l.length) :
+    (addAt l a d).getD b 0 = l.getD b 0 + if a = b then d else 0 := by
+  unfold addAt
+  rw [List.getD_eq_getElem?_getD, List.getD_eq_getElem?_getD, List.getElem?_modify]
+  by_cases h : a = b <;> simp [h, hb]
+
+theorem get_applyEff (s : SolveSt α) (e : Eff α) (one : Bool) :
+    (s.applyEff e).get one
+      = if e.one = one then (s.get one).modify e.info (fun x => x.apply e.slot e.act e.delta)
+        else s.get one := by
+  obtain ⟨o, i, sl, a, d⟩ := e
+  cases o <;> cases one <;> simp [SolveSt.applyEff, SolveSt.set, SolveSt.get]
+
+theorem applyEff_cell (s : SolveSt α) (e : Eff α) (one : Bool) :
+    ((s.applyEff e).get one).length = (s.get one).length ∧
+    ∀ (I : Nat) (x : InfoSt α), (s.get one)[I]? = some x →
+      ∃ x', ((s.applyEff e).get one)[I]? = some x' ∧ x'.strat = x.strat ∧
+        x'.cumRegret.length = x.cumRegret.length ∧ x'.cumStrat.length = x.cumStrat.length ∧
+        (∀ a, a < x.cumRegret.length →
+          x'.cumRegret.getD a 0 = x.cumRegret.getD a 0
+            + (if e.one = one ∧ e.info = I ∧ e.slot = Slot.regret ∧ e.act = a then e.delta else 0)) ∧
+        (∀ a, a < x.cumStrat.length →
+          x'.cumStrat.getD a 0 = x.cumStrat.getD a 0
+            + (if e.one = one ∧ e.info = I ∧ e.slot = Slot.strat ∧ e.act = a then e.delta else 0)) := by
+  rw [get_applyEff]
+  by_cases h1 : e.one = one
+  · simp only [h1, if_true, List.length_modify, true_and]
+    intro I x hx
+    rw [List.getElem?_modify]
+    by_cases h2 : e.info = I
+    · simp only [h2, if_true, hx, true_and]
+      refine ⟨_, rfl, ?_⟩
+      cases hsl : e.slot with
+      | regret =>
+        refine ⟨rfl, addAt_length _ _ _, rfl, ?_, ?_⟩
+        · intro a ha
+          simp only [InfoSt.apply, addAt_getD _ _ _ _ ha, true_and]
+        · intro a _
+          simp [InfoSt.apply]
+      | strat =>
+        refine ⟨rfl, rfl, addAt_length _ _ _, ?_, ?_⟩
+        · intro a _
+          simp [InfoSt.apply]
+        · intro a ha
+          simp only [InfoSt.apply, addAt_getD _ _ _ _ ha, true_and]
+    · simp only [h2, if_false, false_and, add_zero]
+      exact ⟨x, by simp [hx], rfl, rfl, rfl, fun _ _ => rfl, fun _ _ => rfl⟩
+  · simp only [h1, if_false, false_and, add_zero, true_and]
+    intro I x hx
+    exact ⟨x, hx, rfl, rfl, rfl, fun _ _ => rfl, fun _ _ => rfl⟩
 
 /-- **accumulators after a list of atomic accumulations**: table sizes, vector lengths and the
 current strategy are untouched; every existing cell grows by the `effSum` addressed to it -/
@@ -25,29 +177,550 @@ theorem applyEffs_cell (s : SolveSt α) (es : List (Eff α)) (one : Bool) :
           x'.cumRegret.getD a 0 = x.cumRegret.getD a 0 + effSum es one I Slot.regret a) ∧
         (∀ a, a < x.cumStrat.length →
           x'.cumStrat.getD a 0 = x.cumStrat.getD a 0 + effSum es one I Slot.strat a) := by
-  sorry
+  induction es generalizing s with
+  | nil =>
+    refine ⟨rfl, fun I x hx => ⟨x, hx, rfl, rfl, rfl, ?_, ?_⟩⟩ <;> intro a _ <;> simp
+  | cons e es ih =>
+    obtain ⟨l1, c1⟩ := applyEff_cell s e one
+    obtain ⟨l2, c2⟩ := ih (s.applyEff e)
+    have he : s.applyEffs (e :: es) = (s.applyEff e).applyEffs es := rfl
+    rw [he]
+    refine ⟨l2.trans l1, ?_⟩
+    intro I x hx
+    obtain ⟨x1, g1, s1, r1, t1, cr1, cs1⟩ := c1 I x hx
+    obtain ⟨x2, g2, s2, r2, t2, cr2, cs2⟩ := c2 I x1 g1
+    refine ⟨x2, g2, s2.trans s1, r2.trans r1, t2.trans t1, ?_, ?_⟩
+    · intro a ha
+      rw [cr2 a (by rw [r1]; exact ha), cr1 a ha, effSum_cons, add_assoc]
+    · intro a ha
+      rw [cs2 a (by rw [t1]; exact ha), cs1 a ha, effSum_cons, add_assoc]
+
+/-! ## the traversal -/
+
+theorem evV_view_player (ch : List (List α)) (σ : Bool → Strat α) (me one : Bool) (i : Nat)
+    (ks : List (Node α)) :
+    evV (σ me) (view ch (σ (!me)) me (.player one i ks))
+      = evVN (σ me) ((σ one).at i) (viewL ch (σ (!me)) me ks) := by
+  cases me <;> cases one <;> simp [view, evV]
+
+mutual
+theorem evV_view_neg (ch : List (List α)) (τ1 τ2 : Strat α) :
+    ∀ n : Node α, evV τ2 (view ch τ1 false n) = - evV τ1 (view ch τ2 true n)
+  | .term p => by simp [view, evV]
+  | .chance i ks => by
+    simp only [view, evV]; exact evVN_viewL_neg ch τ1 τ2 _ ks
+  | .player one i ks => by
+    cases one <;> simp [view, evV] <;> exact evVN_viewL_neg ch τ1 τ2 _ ks
+theorem evVN_viewL_neg (ch : List (List α)) (τ1 τ2 : Strat α) :
+    ∀ (ws : List α) (ks : List (Node α)),
+      evVN τ2 ws (viewL ch τ1 false ks) = - evVN τ1 ws (viewL ch τ2 true ks)
+  | [], ks => by simp [evVN]
+  | _ :: _, [] => by simp [viewL, evVN]
+  | w :: ws, k :: ks => by
+    simp only [viewL, evVN, evV_view_neg ch τ1 τ2 k, evVN_viewL_neg ch τ1 τ2 ws ks]
+    ring
+end
+
+theorem vrec_term (c : VCtx α) (p pc p1 p2 : α) (d : DrawSt α) :
+    vrec c (.term p) pc p1 p2 d = (p, [], d) := by simp only [vrec]
+theorem vrec_chance (c : VCtx α) (hs : c.sampled = false) (i : Nat) (ks : List (Node α))
+    (pc p1 p2 : α) (d : DrawSt α) :
+    vrec c (.chance i ks) pc p1 p2 d = vrecChance c (c.ch.getD i []) ks pc p1 p2 d 0 := by
+  simp only [vrec, hs, Bool.false_eq_true, if_false]
+theorem vrec_player (c : VCtx α) (one : Bool) (i : Nat) (ks : List (Node α))
+    (pc p1 p2 : α) (d : DrawSt α) :
+    vrec c (.player one i ks) pc p1 p2 d =
+      (let r := vrecActs c one i (if one then pc * p2 else -p1 * pc) (c.strat one i) ks pc p1 p2 d 0 0 0
+       (r.1, stratEffs one i (if one then p1 else p2) (c.strat one i) 0 ++ r.2.2.1
+          ++ subEffs one i r.2.1 (c.strat one i).length, r.2.2.2)) := by
+  simp only [vrec]
+theorem vrecChance_cons (c : VCtx α) (p : α) (ps : List α) (k : Node α) (ks : List (Node α))
+    (pc p1 p2 : α) (d : DrawSt α) (acc : α) :
+    vrecChance c (p :: ps) (k :: ks) pc p1 p2 d acc =
+      (let r := vrec c k (pc * p) p1 p2 d
+       let r' := vrecChance c ps ks pc p1 p2 r.2.2 (acc + p * r.1)
+       (r'.1, r.2.1 ++ r'.2.1, r'.2.2)) := by
+  simp only [vrecChance]
+theorem vrecActs_cons (c : VCtx α) (one : Bool) (i : Nat) (mult s : α) (σ : List α) (k : Node α)
+    (ks : List (Node α)) (pc p1 p2 : α) (d : DrawSt α) (a : Nat) (eo ex : α) :
+    vrecActs c one i mult (s :: σ) (k :: ks) pc p1 p2 d a eo ex =
+      (let r := if one then vrec c k pc (p1 * s) p2 d else vrec c k pc p1 (p2 * s) d
+       let r' := vrecActs c one i mult σ ks pc p1 p2 r.2.2 (a + 1) (eo + s * r.1) (ex + r.1 * mult * s)
+       (r'.1, r'.2.1, r.2.1 ++ ⟨one, i, .regret, a, r.1 * mult⟩ :: r'.2.2.1, r'.2.2.2)) := by
+  simp only [vrecActs]
+
+
+theorem vrecChance_nil_right (c : VCtx α) (ws : List α) (pc p1 p2 : α) (d : DrawSt α) (acc : α) :
+    vrecChance c ws [] pc p1 p2 d acc = (acc, [], d) := by
+  cases ws <;> simp [vrecChance]
+theorem vrecActs_nil_right (c : VCtx α) (one : Bool) (i : Nat) (mult : α) (ss : List α)
+    (pc p1 p2 : α) (d : DrawSt α) (a : Nat) (eo ex : α) :
+    vrecActs c one i mult ss [] pc p1 p2 d a eo ex = (eo, ex, [], d) := by
+  cases ss <;> simp [vrecActs]
+
+mutual
+theorem vrec_val (c : VCtx α) (hs : c.sampled = false) (σ : Bool → Strat α) (hc : CtxOf c σ) :
+    ∀ (n : Node α) (pc p1 p2 : α) (d : DrawSt α),
+      (vrec c n pc p1 p2 d).1 = evV (σ true) (view c.ch (σ false) true n)
+  | .term p, pc, p1, p2, d => by simp [vrec_term, view, evV]
+  | .chance i ks, pc, p1, p2, d => by
+    rw [vrec_chance c hs, vrecChance_val c hs σ hc _ ks pc p1 p2 d 0]
+    simp [view, evV]
+  | .player one i ks, pc, p1, p2, d => by
+    rw [vrec_player]
+    simp only []
+    have hp := evV_view_player c.ch σ true one i ks
+    simp only [Bool.not_true] at hp
+    rw [(vrecActs_val c hs σ hc one i _ _ ks pc p1 p2 d 0 0 0).1, hc one i, hp]
+    simp
+theorem vrecChance_val (c : VCtx α) (hs : c.sampled = false) (σ : Bool → Strat α) (hc : CtxOf c σ) :
+    ∀ (ws : List α) (ks : List (Node α)) (pc p1 p2 : α) (d : DrawSt α) (acc : α),
+      (vrecChance c ws ks pc p1 p2 d acc).1 = acc + evVN (σ true) ws (viewL c.ch (σ false) true ks)
+  | [], _, _, _, _, d, acc => by simp [vrecChance, evVN]
+  | _ :: _, [], _, _, _, d, acc => by simp [vrecChance, viewL, evVN]
+  | w :: ws, k :: ks, pc, p1, p2, d, acc => by
+    rw [vrecChance_cons]
+    simp only []
+    rw [vrecChance_val c hs σ hc ws ks, vrec_val c hs σ hc k]
+    simp only [viewL, evVN]
+    ring
+theorem vrecActs_val (c : VCtx α) (hs : c.sampled = false) (σ : Bool → Strat α) (hc : CtxOf c σ)
+    (one : Bool) (i : Nat) (mult : α) :
+    ∀ (ss : List α) (ks : List (Node α)) (pc p1 p2 : α) (d : DrawSt α) (a : Nat) (eo ex : α),
+      (vrecActs c one i mult ss ks pc p1 p2 d a eo ex).1
+          = eo + evVN (σ true) ss (viewL c.ch (σ false) true ks) ∧
+      (vrecActs c one i mult ss ks pc p1 p2 d a eo ex).2.1
+          = ex + mult * evVN (σ true) ss (viewL c.ch (σ false) true ks)
+  | [], _, _, _, _, d, _, eo, ex => by simp [vrecActs, evVN]
+  | _ :: _, [], _, _, _, d, _, eo, ex => by simp [vrecActs, viewL, evVN]
+  | s :: ss, k :: ks, pc, p1, p2, d, a, eo, ex => by
+    rw [vrecActs_cons]
+    simp only []
+    have hv : (if one = true then vrec c k pc (p1 * s) p2 d else vrec c k pc p1 (p2 * s) d).1
+        = evV (σ true) (view c.ch (σ false) true k) := by
+      cases one
+      · simpa using vrec_val c hs σ hc k pc p1 (p2 * s) d
+      · simpa using vrec_val c hs σ hc k pc (p1 * s) p2 d
+    obtain ⟨h1, h2⟩ := vrecActs_val c hs σ hc one i mult ss ks pc p1 p2
+      (if one = true then vrec c k pc (p1 * s) p2 d else vrec c k pc p1 (p2 * s) d).2.2 (a + 1)
+      (eo + s * (if one = true then vrec c k pc (p1 * s) p2 d else vrec c k pc p1 (p2 * s) d).1)
+      (ex + (if one = true then vrec c k pc (p1 * s) p2 d else vrec c k pc p1 (p2 * s) d).1 * mult * s)
+    rw [h1, h2, hv]
+    simp only [viewL, evVN]
+    constructor <;> ring
+end
+
+/-! ## no child is cut off by the zip with the probabilities -/
+
+mutual
+/-- at every own decision node the strategy has an entry for every child -/
+def VOwnFits (σ : Strat α) : V α → Prop
+  | .term _ => True
+  | .nature _ ks => VOwnFitsL σ ks
+  | .decide i ks => ks.length ≤ (σ.at i).length ∧ VOwnFitsL σ ks
+def VOwnFitsL (σ : Strat α) : List (V α) → Prop
+  | [] => True
+  | k :: ks => VOwnFits σ k ∧ VOwnFitsL σ ks
+end
+
+mutual
+/-- at every move of the rest of the world there is a probability for every child -/
+def VNatFits : V α → Prop
+  | .term _ => True
+  | .nature ws ks => ks.length ≤ ws.length ∧ VNatFitsL ks
+  | .decide _ ks => VNatFitsL ks
+def VNatFitsL : List (V α) → Prop
+  | [] => True
+  | k :: ks => VNatFits k ∧ VNatFitsL ks
+end
+
+mutual
+theorem VOK.ownFits (N : Nat) (nActs : Nat → Nat) (σ : Strat α)
+    (hσ : ∀ i, i < N → (σ.at i).length = nActs i) : ∀ v : V α, VOK N nActs v → VOwnFits σ v
+  | .term _, _ => by simp [VOwnFits]
+  | .nature ws ks, h => by
+    obtain ⟨_, _, hk⟩ := (by simpa [VOK] using h :
+      ws.length = ks.length ∧ (∀ w ∈ ws, 0 ≤ w) ∧ VOKL N nActs ks)
+    simp only [VOwnFits]
+    exact VOKL.ownFits N nActs σ hσ ks hk
+  | .decide i ks, h => by
+    obtain ⟨h1, h2, _, hk⟩ := (by simpa [VOK] using h :
+      i < N ∧ ks.length = nActs i ∧ 1 ≤ ks.length ∧ VOKL N nActs ks)
+    simp only [VOwnFits]
+    exact ⟨by rw [hσ i h1, h2], VOKL.ownFits N nActs σ hσ ks hk⟩
+theorem VOKL.ownFits (N : Nat) (nActs : Nat → Nat) (σ : Strat α)
+    (hσ : ∀ i, i < N → (σ.at i).length = nActs i) : ∀ ks : List (V α), VOKL N nActs ks → VOwnFitsL σ ks
+  | [], _ => by simp [VOwnFitsL]
+  | k :: ks, h => by
+    obtain ⟨h1, h2⟩ := (by simpa [VOKL] using h : VOK N nActs k ∧ VOKL N nActs ks)
+    simp only [VOwnFitsL]
+    exact ⟨VOK.ownFits N nActs σ hσ k h1, VOKL.ownFits N nActs σ hσ ks h2⟩
+end
+
+mutual
+theorem VOK.natFits (N : Nat) (nActs : Nat → Nat) : ∀ v : V α, VOK N nActs v → VNatFits v
+  | .term _, _ => by simp [VNatFits]
+  | .nature ws ks, h => by
+    obtain ⟨h1, _, hk⟩ := (by simpa [VOK] using h :
+      ws.length = ks.length ∧ (∀ w ∈ ws, 0 ≤ w) ∧ VOKL N nActs ks)
+    simp only [VNatFits]
+    exact ⟨by rw [h1], VOKL.natFits N nActs ks hk⟩
+  | .decide i ks, h => by
+    obtain ⟨_, _, _, hk⟩ := (by simpa [VOK] using h :
+      i < N ∧ ks.length = nActs i ∧ 1 ≤ ks.length ∧ VOKL N nActs ks)
+    simp only [VNatFits]
+    exact VOKL.natFits N nActs ks hk
+theorem VOKL.natFits (N : Nat) (nActs : Nat → Nat) : ∀ ks : List (V α), VOKL N nActs ks → VNatFitsL ks
+  | [], _ => by simp [VNatFitsL]
+  | k :: ks, h => by
+    obtain ⟨h1, h2⟩ := (by simpa [VOKL] using h : VOK N nActs k ∧ VOKL N nActs ks)
+    simp only [VNatFitsL]
+    exact ⟨VOK.natFits N nActs k h1, VOKL.natFits N nActs ks h2⟩
+end
+
+theorem view_player_own (ch : List (List α)) (σo : Strat α) (me : Bool) (i : Nat) (ks : List (Node α)) :
+    view ch σo me (.player me i ks) = .decide i (viewL ch σo me ks) := by
+  simp [view]
+
+theorem view_player_opp (ch : List (List α)) (σo : Strat α) (me : Bool) (i : Nat) (ks : List (Node α)) :
+    view ch σo me (.player (!me) i ks) = .nature (σo.at i) (viewL ch σo me ks) := by
+  cases me <;> simp [view]
+
+/-! ### the average-strategy slot -/
+
+mutual
+theorem vrec_str (c : VCtx α) (hs : c.sampled = false) (σ : Bool → Strat α) (hc : CtxOf c σ)
+    (me : Bool) (I a : Nat) :
+    ∀ (n : Node α) (pc p1 p2 : α) (d : DrawSt α), VNatFits (view c.ch (σ (!me)) me n) →
+      effSum (vrec c n pc p1 p2 d).2.1 me I Slot.strat a
+        = stratAdd (σ me) I a (view c.ch (σ (!me)) me n) (if me then p1 else p2)
+  | .term p, pc, p1, p2, d, _ => by simp [vrec_term, view, stratAdd]
+  | .chance i ks, pc, p1, p2, d, h => by
+    obtain ⟨h1, h2⟩ := (by simpa [view, VNatFits] using h :
+      (viewL c.ch (σ (!me)) me ks).length ≤ (c.ch.getD i []).length
+        ∧ VNatFitsL (viewL c.ch (σ (!me)) me ks))
+    rw [viewL_length] at h1
+    rw [vrec_chance c hs, vrecChance_str c hs σ hc me I a _ ks pc p1 p2 d 0 h1 h2]
+    simp [view, stratAdd]
+  | .player one i ks, pc, p1, p2, d, h => by
+    rw [vrec_player]
+    simp only [effSum_append, effSum_subEffs_strat, add_zero]
+    by_cases hone : one = me
+    · subst hone
+      rw [view_player_own] at h ⊢
+      have h2 : VNatFitsL (viewL c.ch (σ (!one)) one ks) := by simpa [VNatFits] using h
+      rw [vrecActs_str_own c hs σ hc one I a i _ _ ks pc p1 p2 d 0 0 0 h2,
+        effSum_stratEffs_strat, hc one i]
+      simp only [stratAdd]
+      by_cases hi : i = I <;> simp [hi]
+    · obtain rfl : one = !me := by cases me <;> cases one <;> simp_all
+      rw [view_player_opp] at h ⊢
+      obtain ⟨h1, h2⟩ := (by simpa [VNatFits] using h :
+        (viewL c.ch (σ (!me)) me ks).length ≤ ((σ (!me)).at i).length
+          ∧ VNatFitsL (viewL c.ch (σ (!me)) me ks))
+      rw [viewL_length] at h1
+      rw [vrecActs_str_opp c hs σ hc me I a i _ _ ks pc p1 p2 d 0 0 0 (by rw [hc]; exact h1) h2,
+        effSum_stratEffs_strat]
+      simp only [stratAdd]
+      cases me <;> simp
+theorem vrecChance_str (c : VCtx α) (hs : c.sampled = false) (σ : Bool → Strat α) (hc : CtxOf c σ)
+    (me : Bool) (I a : Nat) :
+    ∀ (ws : List α) (ks : List (Node α)) (pc p1 p2 : α) (d : DrawSt α) (acc : α),
+      ks.length ≤ ws.length → VNatFitsL (viewL c.ch (σ (!me)) me ks) →
+      effSum (vrecChance c ws ks pc p1 p2 d acc).2.1 me I Slot.strat a
+        = stratAddN (σ me) I a (viewL c.ch (σ (!me)) me ks) (if me then p1 else p2)
+  | ws, [], pc, p1, p2, d, acc, _, _ => by
+    simp [vrecChance_nil_right, viewL, stratAddN]
+  | [], _ :: _, _, _, _, d, acc, hl, _ => by simp at hl
+  | w :: ws, k :: ks, pc, p1, p2, d, acc, hl, h => by
+    obtain ⟨h1, h2⟩ := (by simpa [viewL, VNatFitsL] using h :
+      VNatFits (view c.ch (σ (!me)) me k) ∧ VNatFitsL (viewL c.ch (σ (!me)) me ks))
+    rw [vrecChance_cons]
+    simp only [effSum_append]
+    rw [vrec_str c hs σ hc me I a k _ _ _ _ h1,
+      vrecChance_str c hs σ hc me I a ws ks _ _ _ _ _ (by simpa using hl) h2]
+    simp only [viewL, stratAddN]
+theorem vrecActs_str_own (c : VCtx α) (hs : c.sampled = false) (σ : Bool → Strat α) (hc : CtxOf c σ)
+    (me : Bool) (I a : Nat) (i : Nat) (mult : α) :
+    ∀ (ss : List α) (ks : List (Node α)) (pc p1 p2 : α) (d : DrawSt α) (k : Nat) (eo ex : α),
+      VNatFitsL (viewL c.ch (σ (!me)) me ks) →
+      effSum (vrecActs c me i mult ss ks pc p1 p2 d k eo ex).2.2.1 me I Slot.strat a
+        = stratAddD (σ me) I a ss (viewL c.ch (σ (!me)) me ks) (if me then p1 else p2)
+  | [], _, _, _, _, d, _, eo, ex, _ => by simp [vrecActs, stratAddD]
+  | _ :: _, [], _, _, _, d, _, eo, ex, _ => by simp [vrecActs, viewL, stratAddD]
+  | s :: ss, n :: ks, pc, p1, p2, d, k, eo, ex, h => by
+    obtain ⟨h1, h2⟩ := (by simpa [viewL, VNatFitsL] using h :
+      VNatFits (view c.ch (σ (!me)) me n) ∧ VNatFitsL (viewL c.ch (σ (!me)) me ks))
+    rw [vrecActs_cons]
+    simp only [effSum_append, effSum_cons]
+    have hv : effSum (if me = true then vrec c n pc (p1 * s) p2 d else vrec c n pc p1 (p2 * s) d).2.1
+        me I Slot.strat a
+        = stratAdd (σ me) I a (view c.ch (σ (!me)) me n) ((if me then p1 else p2) * s) := by
+      cases me
+      · simpa using vrec_str c hs σ hc false I a n pc p1 (p2 * s) d h1
+      · simpa using vrec_str c hs σ hc true I a n pc (p1 * s) p2 d h1
+    rw [hv, vrecActs_str_own c hs σ hc me I a i mult ss ks _ _ _ _ _ _ _ h2]
+    simp [viewL, stratAddD]
+theorem vrecActs_str_opp (c : VCtx α) (hs : c.sampled = false) (σ : Bool → Strat α) (hc : CtxOf c σ)
+    (me : Bool) (I a : Nat) (i : Nat) (mult : α) :
+    ∀ (ss : List α) (ks : List (Node α)) (pc p1 p2 : α) (d : DrawSt α) (k : Nat) (eo ex : α),
+      ks.length ≤ ss.length → VNatFitsL (viewL c.ch (σ (!me)) me ks) →
+      effSum (vrecActs c (!me) i mult ss ks pc p1 p2 d k eo ex).2.2.1 me I Slot.strat a
+        = stratAddN (σ me) I a (viewL c.ch (σ (!me)) me ks) (if me then p1 else p2)
+  | ss, [], pc, p1, p2, d, k, eo, ex, _, _ => by
+    simp [vrecActs_nil_right, viewL, stratAddN]
+  | [], _ :: _, _, _, _, d, _, eo, ex, hl, _ => by simp at hl
+  | s :: ss, n :: ks, pc, p1, p2, d, k, eo, ex, hl, h => by
+    obtain ⟨h1, h2⟩ := (by simpa [viewL, VNatFitsL] using h :
+      VNatFits (view c.ch (σ (!me)) me n) ∧ VNatFitsL (viewL c.ch (σ (!me)) me ks))
+    rw [vrecActs_cons]
+    simp only [effSum_append, effSum_cons]
+    have hv : effSum (if (!me) = true then vrec c n pc (p1 * s) p2 d
+          else vrec c n pc p1 (p2 * s) d).2.1 me I Slot.strat a
+        = stratAdd (σ me) I a (view c.ch (σ (!me)) me n) (if me then p1 else p2) := by
+      cases me
+      · simpa using vrec_str c hs σ hc false I a n pc (p1 * s) p2 d h1
+      · simpa using vrec_str c hs σ hc true I a n pc p1 (p2 * s) d h1
+    rw [hv, vrecActs_str_opp c hs σ hc me I a i mult ss ks _ _ _ _ _ _ _ (by simpa using hl) h2]
+    simp [viewL, stratAddN]
+end
+
+/-! ### the regret slot -/
+
+theorem viewL_map {β : Type} (ch : List (List α)) (σo : Strat α) (me : Bool) (f : V α → β) :
+    ∀ ks : List (Node α), (viewL ch σo me ks).map f = ks.map (fun n => f (view ch σo me n))
+  | [] => by simp [viewL]
+  | k :: ks => by simp [viewL, viewL_map ch σo me f ks]
+
+theorem getD_map_mul {β : Type} (f g : β → α) (m C : α) (h : ∀ n, f n * m = C * g n) :
+    ∀ (ks : List β) (a : Nat), (ks.map f).getD a 0 * m = C * (ks.map g).getD a 0
+  | [], a => by simp
+  | k :: ks, 0 => by simp [h]
+  | k :: ks, a + 1 => by simpa using getD_map_mul f g m C h ks a
+
+theorem evV_view_sg (ch : List (List α)) (σ : Bool → Strat α) (me : Bool) (n : Node α) :
+    evV (σ me) (view ch (σ (!me)) me n) = sg me (evV (σ true) (view ch (σ false) true n)) := by
+  cases me
+  · simp [sg, evV_view_neg]
+  · simp [sg]
+
+theorem evVN_viewL_sg (ch : List (List α)) (σ : Bool → Strat α) (me : Bool) (ws : List α)
+    (ks : List (Node α)) :
+    evVN (σ me) ws (viewL ch (σ (!me)) me ks)
+      = sg me (evVN (σ true) ws (viewL ch (σ false) true ks)) := by
+  cases me
+  · simp [sg, evVN_viewL_neg]
+  · simp [sg]
+
+mutual
+theorem vrec_reg (c : VCtx α) (hs : c.sampled = false) (σ : Bool → Strat α) (hc : CtxOf c σ)
+    (me : Bool) (I a : Nat) (ha : a < ((σ me).at I).length) :
+    ∀ (n : Node α) (pc p1 p2 : α) (d : DrawSt α), VOwnFits (σ me) (view c.ch (σ (!me)) me n) →
+      effSum (vrec c n pc p1 p2 d).2.1 me I Slot.regret a
+        = regAdd (σ me) I a (view c.ch (σ (!me)) me n) (pc * (if me then p2 else p1))
+  | .term p, pc, p1, p2, d, _ => by simp [vrec_term, view, regAdd]
+  | .chance i ks, pc, p1, p2, d, h => by
+    have h2 : VOwnFitsL (σ me) (viewL c.ch (σ (!me)) me ks) := by simpa [view, VOwnFits] using h
+    rw [vrec_chance c hs, vrecChance_reg c hs σ hc me I a ha _ ks pc p1 p2 d 0 h2]
+    simp [view, regAdd]
+  | .player one i ks, pc, p1, p2, d, h => by
+    rw [vrec_player]
+    simp only [effSum_append, effSum_stratEffs_regret, zero_add]
+    by_cases hone : one = me
+    · subst hone
+      rw [view_player_own] at h ⊢
+      obtain ⟨h1, h2⟩ := (by simpa [VOwnFits] using h :
+        (viewL c.ch (σ (!one)) one ks).length ≤ ((σ one).at i).length
+          ∧ VOwnFitsL (σ one) (viewL c.ch (σ (!one)) one ks))
+      rw [viewL_length] at h1
+      rw [vrecActs_reg_own c hs σ hc one I a ha i _ _ ks pc p1 p2 d 0 0 0 (by rw [hc]; exact h1) h2,
+        effSum_subEffs_regret, (vrecActs_val c hs σ hc one i _ _ ks pc p1 p2 d 0 0 0).2, hc one i]
+      simp only [regAdd]
+      by_cases hi : i = I
+      · subst hi
+        have hA := getD_map_mul (fun n => evV (σ true) (view c.ch (σ false) true n))
+          (fun n => evV (σ one) (view c.ch (σ (!one)) one n))
+          (if one = true then pc * p2 else -p1 * pc) (pc * (if one = true then p2 else p1))
+          (by intro n; rw [evV_view_sg]; cases one <;> simp [sg] <;> ring) ks a
+        rw [viewL_map, evVN_viewL_sg]
+        simp only [ha, Nat.zero_le, and_self, if_true, Nat.sub_zero, hA]
+        cases one <;> simp [sg] <;> ring
+      · simp [hi]
+    · obtain rfl : one = !me := by cases me <;> cases one <;> simp_all
+      rw [view_player_opp] at h ⊢
+      have h2 : VOwnFitsL (σ me) (viewL c.ch (σ (!me)) me ks) := by simpa [VOwnFits] using h
+      rw [vrecActs_reg_opp c hs σ hc me I a ha i _ _ ks pc p1 p2 d 0 0 0 h2,
+        effSum_subEffs_regret, hc]
+      simp only [regAdd]
+      cases me <;> simp
+theorem vrecChance_reg (c : VCtx α) (hs : c.sampled = false) (σ : Bool → Strat α) (hc : CtxOf c σ)
+    (me : Bool) (I a : Nat) (ha : a < ((σ me).at I).length) :
+    ∀ (ws : List α) (ks : List (Node α)) (pc p1 p2 : α) (d : DrawSt α) (acc : α),
+      VOwnFitsL (σ me) (viewL c.ch (σ (!me)) me ks) →
+      effSum (vrecChance c ws ks pc p1 p2 d acc).2.1 me I Slot.regret a
+        = regAddN (σ me) I a ws (viewL c.ch (σ (!me)) me ks) (pc * (if me then p2 else p1))
+  | [], _, _, _, _, d, acc, _ => by simp [vrecChance, regAddN]
+  | _ :: _, [], _, _, _, d, acc, _ => by simp [vrecChance, viewL, regAddN]
+  | w :: ws, k :: ks, pc, p1, p2, d, acc, h => by
+    obtain ⟨h1, h2⟩ := (by simpa [viewL, VOwnFitsL] using h :
+      VOwnFits (σ me) (view c.ch (σ (!me)) me k) ∧ VOwnFitsL (σ me) (viewL c.ch (σ (!me)) me ks))
+    rw [vrecChance_cons]
+    simp only [effSum_append]
+    rw [vrec_reg c hs σ hc me I a ha k _ _ _ _ h1,
+      vrecChance_reg c hs σ hc me I a ha ws ks _ _ _ _ _ h2]
+    simp only [viewL, regAddN]
+    have e : pc * w * (if me = true then p2 else p1) = pc * (if me = true then p2 else p1) * w := by
+      ring
+    rw [e]
+theorem vrecActs_reg_own (c : VCtx α) (hs : c.sampled = false) (σ : Bool → Strat α) (hc : CtxOf c σ)
+    (me : Bool) (I a : Nat) (ha : a < ((σ me).at I).length) (i : Nat) (mult : α) :
+    ∀ (ss : List α) (ks : List (Node α)) (pc p1 p2 : α) (d : DrawSt α) (k : Nat) (eo ex : α),
+      ks.length ≤ ss.length → VOwnFitsL (σ me) (viewL c.ch (σ (!me)) me ks) →
+      effSum (vrecActs c me i mult ss ks pc p1 p2 d k eo ex).2.2.1 me I Slot.regret a
+        = regAddD (σ me) I a (viewL c.ch (σ (!me)) me ks) (pc * (if me then p2 else p1))
+          + (if i = I ∧ k ≤ a then
+              (ks.map (fun n => evV (σ true) (view c.ch (σ false) true n))).getD (a - k) 0 * mult
+             else 0)
+  | ss, [], pc, p1, p2, d, k, eo, ex, _, _ => by
+    simp [vrecActs_nil_right, viewL, regAddD]
+  | [], _ :: _, _, _, _, d, _, eo, ex, hl, _ => by simp at hl
+  | s :: ss, n :: ks, pc, p1, p2, d, k, eo, ex, hl, h => by
+    obtain ⟨h1, h2⟩ := (by simpa [viewL, VOwnFitsL] using h :
+      VOwnFits (σ me) (view c.ch (σ (!me)) me n) ∧ VOwnFitsL (σ me) (viewL c.ch (σ (!me)) me ks))
+    rw [vrecActs_cons]
+    simp only [effSum_append, effSum_cons]
+    have hv : effSum (if me = true then vrec c n pc (p1 * s) p2 d else vrec c n pc p1 (p2 * s) d).2.1
+        me I Slot.regret a
+        = regAdd (σ me) I a (view c.ch (σ (!me)) me n) (pc * (if me then p2 else p1)) := by
+      cases me
+      · simpa using vrec_reg c hs σ hc false I a ha n pc p1 (p2 * s) d h1
+      · simpa using vrec_reg c hs σ hc true I a ha n pc (p1 * s) p2 d h1
+    have hv1 : (if me = true then vrec c n pc (p1 * s) p2 d else vrec c n pc p1 (p2 * s) d).1
+        = evV (σ true) (view c.ch (σ false) true n) := by
+      cases me
+      · simpa using vrec_val c hs σ hc n pc p1 (p2 * s) d
+      · simpa using vrec_val c hs σ hc n pc (p1 * s) p2 d
+    rw [hv, hv1, vrecActs_reg_own c hs σ hc me I a ha i mult ss ks _ _ _ _ _ _ _ (by simpa using hl) h2]
+    simp only [viewL, regAddD, List.map_cons, true_and]
+    by_cases hi : i = I
+    · rcases Nat.lt_trichotomy k a with hk | hk | hk
+      · have e : a - k = (a - (k + 1)) + 1 := by omega
+        have h0 : ¬ k = a := by omega
+        have h' : k + 1 ≤ a := hk
+        have h'' : k ≤ a := by omega
+        simp only [hi, h0, h', h'', e, List.getD_cons_succ, and_self, if_true, and_false, if_false]
+        ring
+      · subst hk
+        simp [hi]
+        ring
+      · have h0 : ¬ k = a := by omega
+        have h' : ¬ k + 1 ≤ a := by omega
+        have h'' : ¬ k ≤ a := by omega
+        simp only [hi, h0, h', h'', and_false, if_false]
+        ring
+    · simp only [hi, false_and, if_false]
+      ring
+theorem vrecActs_reg_opp (c : VCtx α) (hs : c.sampled = false) (σ : Bool → Strat α) (hc : CtxOf c σ)
+    (me : Bool) (I a : Nat) (ha : a < ((σ me).at I).length) (i : Nat) (mult : α) :
+    ∀ (ss : List α) (ks : List (Node α)) (pc p1 p2 : α) (d : DrawSt α) (k : Nat) (eo ex : α),
+      VOwnFitsL (σ me) (viewL c.ch (σ (!me)) me ks) →
+      effSum (vrecActs c (!me) i mult ss ks pc p1 p2 d k eo ex).2.2.1 me I Slot.regret a
+        = regAddN (σ me) I a ss (viewL c.ch (σ (!me)) me ks) (pc * (if me then p2 else p1))
+  | [], _, _, _, _, d, _, eo, ex, _ => by simp [vrecActs, regAddN]
+  | _ :: _, [], _, _, _, d, _, eo, ex, _ => by simp [vrecActs, viewL, regAddN]
+  | s :: ss, n :: ks, pc, p1, p2, d, k, eo, ex, h => by
+    obtain ⟨h1, h2⟩ := (by simpa [viewL, VOwnFitsL] using h :
+      VOwnFits (σ me) (view c.ch (σ (!me)) me n) ∧ VOwnFitsL (σ me) (viewL c.ch (σ (!me)) me ks))
+    rw [vrecActs_cons]
+    simp only [effSum_append, effSum_cons]
+    have hv : effSum (if (!me) = true then vrec c n pc (p1 * s) p2 d
+          else vrec c n pc p1 (p2 * s) d).2.1 me I Slot.regret a
+        = regAdd (σ me) I a (view c.ch (σ (!me)) me n) (pc * (if me then p2 else p1) * s) := by
+      cases me
+      · have := vrec_reg c hs σ hc false I a ha n pc (p1 * s) p2 d h1
+        simp only [Bool.false_eq_true, if_false] at this
+        simp only [Bool.not_false, if_true, Bool.false_eq_true, if_false, this]
+        rw [mul_assoc]
+      · have := vrec_reg c hs σ hc true I a ha n pc p1 (p2 * s) d h1
+        simp only [if_true] at this
+        simp only [Bool.not_true, Bool.false_eq_true, if_false, if_true, this]
+        rw [mul_assoc]
+    rw [hv, vrecActs_reg_opp c hs σ hc me I a ha i mult ss ks _ _ _ _ _ _ _ h2]
+    have hne : ¬ (!me) = me := by cases me <;> simp
+    simp [viewL, regAddN, hne]
+end
+
+/-! ## the four statements -/
 
 /-- the value returned by the unsampled traversal is player one's expected value -/
 theorem vrec_full_value (c : VCtx α) (hs : c.sampled = false) (σ : Bool → Strat α) (hc : CtxOf c σ)
     (n : Node α) (pc p1 p2 : α) (d : DrawSt α) :
-    (vrec c n pc p1 p2 d).1 = evV (σ true) (view c.ch (σ false) true n) := by
-  sorry
+    (vrec c n pc p1 p2 d).1 = evV (σ true) (view c.ch (σ false) true n) :=
+  vrec_val c hs σ hc n pc p1 p2 d
 
 /-- the regret accumulations of the unsampled traversal are the instantaneous counterfactual
-regrets on the player's view; the rest of the world reaches the subtree with `pc * p_opponent` -/
+regrets on the player's view; the rest of the world reaches the subtree with `pc * p_opponent`.
+
+**Added hypothesis `hfit`** (the statement is false without it): at every own decision node the
+strategy has an entry for every child.  `vrecActs` zips the strategy with the children, `regAddD`
+runs over all children.  Counterexample over `ℚ` (checked with `decide +kernel`):
+`n = .player true 0 [.player true 1 [.term 1, .term 2]]`, `σ true = [[], [1/2, 1/2]]`, `σ false = []`,
+`c.ch = []`, `pc = p1 = p2 = 1`, `me = true`, `I = 1`, `a = 0`: the traversal visits no child of the
+root, so the left side is `0`; the right side is `1 * (1 - 3/2) = -1/2`.
+`hfit` follows from `VOK N nActs` of the view and `(σ me).at i` having length `nActs i`
+(`VOK.ownFits`). -/
 theorem vrec_full_regret (c : VCtx α) (hs : c.sampled = false) (σ : Bool → Strat α) (hc : CtxOf c σ)
     (me : Bool) (n : Node α) (pc p1 p2 : α) (d : DrawSt α) (I a : Nat)
-    (ha : a < ((σ me).at I).length) :
+    (ha : a < ((σ me).at I).length)
+    (hfit : VOwnFits (σ me) (view c.ch (σ (!me)) me n)) :
     effSum (vrec c n pc p1 p2 d).2.1 me I Slot.regret a
-      = regAdd (σ me) I a (view c.ch (σ (!me)) me n) (pc * (if me then p2 else p1)) := by
-  sorry
+      = regAdd (σ me) I a (view c.ch (σ (!me)) me n) (pc * (if me then p2 else p1)) :=
+  vrec_reg c hs σ hc me I a ha n pc p1 p2 d hfit
 
 /-- the average-strategy accumulations of the unsampled traversal are the own-reach-weighted
-strategy masses -/
+strategy masses.
+
+**Added hypothesis `hfit`** (the statement is false without it): at every chance node and every
+opponent node there is a probability for every child.  `vrecChance` / `vrecActs` zip the
+probabilities with the children, `stratAddN` runs over all children.  Counterexample over `ℚ`
+(checked with `decide +kernel`): `n = .chance 0 [.player true 0 [.term 1, .term 2]]`, `c.ch = []`
+(so the chance node has no probabilities), `σ true = [[1/2, 1/2]]`, `σ false = []`,
+`pc = p1 = p2 = 1`, `me = true`, `I = 0`, `a = 0`: the left side is `0`, the right side is `1/2`.
+`hfit` follows from `VOK N nActs` of the view (`VOK.natFits`). -/
 theorem vrec_full_strat (c : VCtx α) (hs : c.sampled = false) (σ : Bool → Strat α) (hc : CtxOf c σ)
-    (me : Bool) (n : Node α) (pc p1 p2 : α) (d : DrawSt α) (I a : Nat) :
+    (me : Bool) (n : Node α) (pc p1 p2 : α) (d : DrawSt α) (I a : Nat)
+    (hfit : VNatFits (view c.ch (σ (!me)) me n)) :
     effSum (vrec c n pc p1 p2 d).2.1 me I Slot.strat a
-      = stratAdd (σ me) I a (view c.ch (σ (!me)) me n) (if me then p1 else p2) := by
-  sorry
+      = stratAdd (σ me) I a (view c.ch (σ (!me)) me n) (if me then p1 else p2) :=
+  vrec_str c hs σ hc me I a n pc p1 p2 d hfit
+
+/-! ## the added hypotheses are necessary (closed counterexamples over `ℚ`) -/
+
+section Counterexamples
+
+/-- own strategy vector shorter than the number of children -/
+private def cexNodeR : Node ℚ := .player true 0 [.player true 1 [.term 1, .term 2]]
+private def cexσR : Bool → Strat ℚ := fun b => if b then [[], [1/2, 1/2]] else []
+private def cexCtxR : VCtx ℚ := ⟨[], false, fun one i => (cexσR one).at i, fun _ _ _ _ => 0, 0⟩
+
+example : CtxOf cexCtxR cexσR := fun _ _ => rfl
+example : (0 : Nat) < ((cexσR true).at 1).length := by decide +kernel
+example : effSum (vrec cexCtxR cexNodeR 1 1 1 {}).2.1 true 1 Slot.regret 0 = 0 := by
+  decide +kernel
+example : regAdd (cexσR true) 1 0 (view cexCtxR.ch (cexσR (!true)) true cexNodeR)
+    (1 * (if true then 1 else 1)) = -1/2 := by decide +kernel
+
+/-- chance node without probabilities -/
+private def cexNodeS : Node ℚ := .chance 0 [.player true 0 [.term 1, .term 2]]
+private def cexσS : Bool → Strat ℚ := fun b => if b then [[1/2, 1/2]] else []
+private def cexCtxS : VCtx ℚ := ⟨[], false, fun one i => (cexσS one).at i, fun _ _ _ _ => 0, 0⟩
+
+example : CtxOf cexCtxS cexσS := fun _ _ => rfl
+example : effSum (vrec cexCtxS cexNodeS 1 1 1 {}).2.1 true 0 Slot.strat 0 = 0 := by
+  decide +kernel
+example : stratAdd (cexσS true) 0 0 (view cexCtxS.ch (cexσS (!true)) true cexNodeS)
+    (if true then 1 else 1) = 1/2 := by decide +kernel
+
+end Counterexamples
 
 end Cfr
